@@ -20,6 +20,7 @@ RULE = (
     "maps for such ticks. A case is non-trivial iff the map has >= 2 segments and at least one checked "
     "tick lies after the first tempo change with a non-integral exact microsecond value; distinct = "
     "distinct (resolution, tempo map, checked ticks)."
+    ' [Song] extras include values and foreign keys that end in a known \'Field = value\' (e.g. \\"Screen Resolution = 96\\", HiResolution = 96); tempo values include round musical tempos.'
 )
 ASSUMPTIONS = [
     "times are kept below 10^6 s (the property's domain); float error of the five float operations "
